@@ -77,4 +77,66 @@ theorem runs_flatten {α : Type} (eqv : α → α → Bool) (l : List α) : (run
       rw [h] at ih
       split <;> simp [← ih]
 
+/-- all members of a run of an equivalence relation are equivalent -/
+theorem runs_equiv {α : Type} (eqv : α → α → Bool) (hsymm : ∀ a b, eqv a b = true → eqv b a = true)
+    (htrans : ∀ a b c, eqv a b = true → eqv b c = true → eqv a c = true) (hrefl : ∀ a, eqv a a = true) (l : List α) :
+    ∀ g ∈ runs eqv l, ∀ a ∈ g, ∀ b ∈ g, eqv a b = true := by
+  induction l with
+  | nil => intro g hg; simp [runs] at hg
+  | cons x t ih =>
+    intro g hg
+    simp only [runs] at hg
+    split at hg
+    next h => simp at hg; subst hg; intro a ha b hb; simp at ha hb; subst ha hb; exact hrefl _
+    next gs h =>
+      rcases List.mem_cons.1 hg with rfl | hg'
+      · intro a ha b hb; simp at ha hb; subst ha hb; exact hrefl _
+      · exact ih g (by rw [h]; simp [hg'])
+    next y g0 gs h =>
+      split at hg
+      next hxy =>
+        rcases List.mem_cons.1 hg with rfl | hg'
+        · have hrun := ih (y :: g0) (by rw [h]; simp)
+          have hx : ∀ b ∈ y :: g0, eqv x b = true := fun b hb => htrans x y b hxy (hrun y (by simp) b hb)
+          intro a ha b hb
+          rcases List.mem_cons.1 ha with hax | ha' <;> rcases List.mem_cons.1 hb with hbx | hb'
+          · rw [hax, hbx]; exact hrefl _
+          · rw [hax]; exact hx b hb'
+          · rw [hbx]; exact hsymm _ _ (hx a ha')
+          · exact hrun a ha' b hb'
+        · exact ih g (by rw [h]; simp [hg'])
+      next =>
+        rcases List.mem_cons.1 hg with rfl | hg'
+        · intro a ha b hb; simp at ha hb; subst ha hb; exact hrefl _
+        · exact ih g (by rw [h]; exact hg')
+
+theorem sameKeys_equiv (cols : List Nat) :
+    (∀ a b, sameKeys cols a b = true → sameKeys cols b a = true) ∧
+    (∀ a b c, sameKeys cols a b = true → sameKeys cols b c = true → sameKeys cols a c = true) ∧
+    (∀ a, sameKeys cols a a = true) := by
+  refine ⟨?_, ?_, ?_⟩
+  · intro a b h
+    simp only [sameKeys, List.all_eq_true, decide_eq_true_eq] at *
+    exact fun c hc => (h c hc).symm
+  · intro a b c h1 h2
+    simp only [sameKeys, List.all_eq_true, decide_eq_true_eq] at *
+    exact fun x hx => (h1 x hx).trans (h2 x hx)
+  · intro a
+    simp [sameKeys]
+
+theorem valCmp_self (v : Val) : Val.cmp v v = .eq := by
+  have := Val.cmp_laws.swap v v
+  cases h : Val.cmp v v <;> simp_all [Ordering.swap]
+
+/-- rows that agree on the join key columns are equal under the join keys' (ascending) order -/
+theorem keyCmp_eq_of_sameKeys (cols : List Nat) (a b : Row) (h : sameKeys cols a b = true) :
+    keyCmp (ascKeys cols) a b = .eq := by
+  induction cols with
+  | nil => rfl
+  | cons c cs ih =>
+    simp only [sameKeys, List.all_cons, Bool.and_eq_true, decide_eq_true_eq] at h
+    simp only [ascKeys, List.map_cons, keyCmp]
+    rw [h.1, valCmp_self]
+    exact ih (by simpa [sameKeys] using h.2)
+
 end RlModel
